@@ -34,7 +34,9 @@ type zzSchema struct {
 	Ref        int // 1 + index of the named schema this node refers to ($ref, possibly recursive); 0: none
 	Format     string      // "uint64": a string-formatted unsigned integer
 	Addl       *zzSchema   // additionalProperties: <schema> (map part of an object)
-	OneOf      []*zzSchema // sum type: variants are mutually exclusive by construction (distinct JSON types, or objects each with a required member of its own)
+	OneOf      []*zzSchema // sum type: exactly one variant must match (distinct JSON types, or objects each with a required member of its own; the builder also merges two object variants)
+	MinProps   *int        // minProperties / maxProperties (map schemas)
+	MaxProps   *int
 }
 
 type zzProp struct {
@@ -163,7 +165,40 @@ func (b *builder) value(s *zzSchema, wrongType bool) aval {
 		s = zzSchemas[s.Ref-1]
 	}
 	if len(s.OneOf) > 0 {
-		return b.value(s.OneOf[b.p.next(len(s.OneOf))], wrongType)
+		n := len(s.OneOf)
+		allObj := n >= 2
+		for _, alt := range s.OneOf {
+			if alt.Type != "object" || alt.Ref != 0 {
+				allObj = false
+			}
+		}
+		if !allObj || wrongType {
+			return b.value(s.OneOf[b.p.next(n)], wrongType)
+		}
+		k := b.p.next(n + 1)
+		if k < n {
+			return b.value(s.OneOf[k], false)
+		}
+		// an instance of variant 0 that ALSO carries the required members of variant 1: it matches both (members a
+		// variant does not declare are allowed), so exactly-one fails and it must be refused
+		v := b.value(s.OneOf[0], false)
+		if v.kind != kObj || len(b.out) == 0 || b.out[len(b.out)-1] != '}' {
+			return v
+		}
+		b.out = b.out[:len(b.out)-1]
+		for _, pr := range s.OneOf[1].Props {
+			if !pr.Required {
+				continue
+			}
+			if b.out[len(b.out)-1] != '{' {
+				b.lit(",")
+			}
+			b.lit(`"` + pr.Name + `":`)
+			v.keys = append(v.keys, pr.Name)
+			v.vals = append(v.vals, b.value(pr.S, false))
+		}
+		b.lit("}")
+		return v
 	}
 	if wrongType {
 		if s.Type == "string" {
@@ -316,12 +351,14 @@ func refValid(s *zzSchema, v aval) bool {
 	if s.Ref != 0 {
 		s = zzSchemas[s.Ref-1]
 	}
-	if len(s.OneOf) > 0 {
-		ok := false
+	if len(s.OneOf) > 0 { // exactly one variant
+		one, more := false, false
 		for _, alt := range s.OneOf {
-			ok = zz.Or(ok, refValid(alt, v))
+			r := refValid(alt, v)
+			more = zz.Or(more, zz.And(one, r))
+			one = zz.Or(one, r)
 		}
-		return ok
+		return zz.And(one, zz.Not(more))
 	}
 	if v.kind == kNull {
 		return s.Nullable
@@ -443,6 +480,12 @@ func refValid(s *zzSchema, v aval) bool {
 				}
 			}
 		}
+		if s.MinProps != nil && len(v.keys) < *s.MinProps {
+			ok = false
+		}
+		if s.MaxProps != nil && len(v.keys) > *s.MaxProps {
+			ok = false
+		}
 		if s.AddlFalse {
 			for _, k := range v.keys {
 				declared := false
@@ -458,6 +501,73 @@ func refValid(s *zzSchema, v aval) bool {
 		}
 		return ok
 	}
+}
+
+// foreignMemberName: at some field-discriminated oneOf node (all variants objects) the instance object carries a
+// member name that only variant i declares AND a member name that only another variant declares - region of the
+// recorded finding C03/oneof-foreign-member-name (ogen picks the variant by member NAMES and reports "multiple
+// oneOf matches", also when the document is valid against exactly one variant because the other one fails on a
+// member's value).
+func foreignMemberName(s *zzSchema, v aval) bool {
+	if s.Ref != 0 {
+		s = zzSchemas[s.Ref-1]
+	}
+	if len(s.OneOf) > 0 {
+		if v.kind != kObj {
+			return false
+		}
+		hit := 0
+		for i, alt := range s.OneOf {
+			if alt.Type != "object" {
+				return false
+			}
+			own := false
+			for _, pr := range alt.Props {
+				unique := true
+				for j, other := range s.OneOf {
+					if j == i {
+						continue
+					}
+					for _, q := range other.Props {
+						if q.Name == pr.Name {
+							unique = false
+						}
+					}
+				}
+				if !unique {
+					continue
+				}
+				for _, k := range v.keys {
+					if k == pr.Name {
+						own = true
+					}
+				}
+			}
+			if own {
+				hit++
+			}
+		}
+		return hit >= 2
+	}
+	if s.Type == "array" && v.kind == kArr {
+		for _, it := range v.arr {
+			if foreignMemberName(s.Items, it) {
+				return true
+			}
+		}
+		return false
+	}
+	if s.Type != "object" || v.kind != kObj {
+		return false
+	}
+	for _, pr := range s.Props {
+		for i, k := range v.keys {
+			if k == pr.Name && foreignMemberName(pr.S, v.vals[i]) {
+				return true
+			}
+		}
+	}
+	return false
 }
 
 // absentOptionalArray: some optional member of array type with minItems >= 1 is absent from the
@@ -532,6 +642,7 @@ func HAccept(idx, variant int) {
 	} else {
 		zz.Cover("instance-refused")
 		zz.Known("C03/absent-optional-array-minitems", absentOptionalArray(zzSchemas[idx], av))
+		zz.Known("C03/oneof-foreign-member-name", foreignMemberName(zzSchemas[idx], av))
 		zz.Assert(zz.Not(want), "a refused document is invalid against the schema")
 	}
 }
